@@ -303,7 +303,11 @@ class ToCSV(object):
             # rows is a method (not a property), as it is
             # in dict.keys(), items(), etc.
             try:
-                rows_iter = data.rows()
+                rows_method = data.rows
+                if not callable(rows_method):
+                    # a data attribute called rows is not a method rows()
+                    raise AttributeError("rows is not callable")
+                rows_iter = rows_method()
             except AttributeError:
                 pass
             else:
